@@ -16,7 +16,7 @@ PROVED here (all histories from an empty pool with any tick spacing > 0, admissi
    (emission on sync + re-deposited forfeits, never negative: `history_events_nonneg`) IF the current tick before the message
    was inside [lower, upper) — the incentive analogue of `C08.growth_inside_history` (laws shared through `insideI`).
 -/
-import OsmoVerif.Proofs.CLIncHist13
+import OsmoVerif.Proofs.CLIncHist20
 import OsmoVerif.Props.C08Inc
 
 namespace OsmoVerif.Props.C08IncHist
@@ -419,5 +419,149 @@ example :
   intro op hop
   simp only [demoTwOps, List.mem_cons, List.mem_nil_iff, or_false] at hop
   rcases hop with rfl | rfl | rfl | rfl | rfl <;> simp [touchesI]
+
+/-! ## 3b. the SUM bound: the incentive address covers every claim and every record -/
+
+theorem initI_sum (spacing spf scale factor : Int) (auth : Nat) : SumI (initI spacing spf scale factor auth) 0 :=
+  ⟨rfl, fun d => by simp [initI, Etot, initF, sumRem, amt]⟩
+
+/-- **the SUM invariant of every reachable state** (`CLIncP.SumI`): per denom `d`, in raw × raw units,
+`2·Σ_positions Σ_accumulators (unclaimed·10¹⁸ + (growth inside − snapshot)·shares) + 2·Σ_records remaining·factor
+   ≤ 2·balance(d)·10¹⁸·factor + 6·(#messages)·10¹⁸`
+— exact entitlements of all live positions plus what the incentive records still hold never exceed the incentive address balance,
+up to six half-units (one per uptime accumulator: the half-even `MulDec` rounding of a record settlement) per message. -/
+theorem incentive_sum_invariant {spacing spf scale factor : Int} {auth : Nat} (hs : 0 < spacing) (hspf : SpfOK spf) (hfac : 0 < factor)
+    (ops : List IOp) : SumI (runI (initI spacing spf scale factor auth) ops) (6 * ops.length) := by
+  have := runI_sum ops (initI_inv (auth := auth) (scale := scale) hs hspf hfac) (initI_sum spacing spf scale factor auth)
+  simpa using this
+
+/-- collected + forfeited whole tokens of denom `d` that `GetClaimableIncentives` reports for position `q` (0 if it fails). -/
+def claimD (s : Full) (d : String) (q : Position) : Int :=
+  match claimableIncentives s q.id with
+  | some (c, f) => amt c d + amt f d
+  | none => 0
+
+theorem sumRem_nonneg (d : String) : ∀ {rs : List IncRec}, RecsOK rs → 0 ≤ sumRem d rs
+  | [], _ => Int.le_refl _
+  | r :: rs, h => by
+    have h1 := (h r List.mem_cons_self).2
+    have h2 := sumRem_nonneg d (rs := rs) (fun x hx => h x (List.mem_cons_of_mem _ hx))
+    simp only [sumRem]; split <;> omega
+
+/-- **Σ claimable + remaining of the records ≤ balance, up to the counted half units**: in every reachable state in which the
+accumulators can be brought to now and every position's claim query succeeds, per denom `d`:
+`2·(Σ_q claimable_q(d))·10¹⁸·factor + 2·(Σ_records remaining after sync)·factor ≤ 2·balance(d)·10¹⁸·factor + 6·(#messages + #positions)·10¹⁸`
+(claimable = collected + forfeited, as whole tokens; `remaining` in raw 10⁻¹⁸ units). -/
+theorem total_claimable_incentives_le_balance {spacing spf scale factor : Int} {auth : Nat} (hs : 0 < spacing) (hspf : SpfOK spf)
+    (hfac : 0 < factor) (ops : List IOp) {i1 : Inc}
+    (hsync : sync (runI (initI spacing spf scale factor auth) ops).inc (runI (initI spacing spf scale factor auth) ops).fees.pool.liquidity = some i1)
+    (hall : ∀ q ∈ (runI (initI spacing spf scale factor auth) ops).fees.pool.positions,
+      (claimableIncentives (runI (initI spacing spf scale factor auth) ops) q.id).isSome) (d : String) :
+    2 * (sumBy (claimD (runI (initI spacing spf scale factor auth) ops) d) (runI (initI spacing spf scale factor auth) ops).fees.pool.positions
+          * (P18 * (runI (initI spacing spf scale factor auth) ops).inc.factor)) +
+        2 * (sumRem d i1.records * (runI (initI spacing spf scale factor auth) ops).inc.factor) ≤
+      2 * (amt (runI (initI spacing spf scale factor auth) ops).inc.bal d * P18 * (runI (initI spacing spf scale factor auth) ops).inc.factor) +
+        (6 * (ops.length : Int) + 6 * (runI (initI spacing spf scale factor auth) ops).fees.pool.positions.length) * P18 := by
+  have hi := reachable_inv_inc (auth := auth) (scale := scale) hs hspf hfac ops
+  have hsum := incentive_sum_invariant (auth := auth) (scale := scale) hs hspf hfac ops
+  generalize runI (initI spacing spf scale factor auth) ops = s at *
+  have h1 := sync_sum hi hsum hsync
+  obtain ⟨hp1, _, _, fa1, _, b1, _⟩ := sync_part hi.inc hsync
+  have hb1 := h1.bound d
+  simp only at hb1
+  rw [fa1, b1] at hb1
+  have hle : sumBy (fun q => 2 * (claimD s d q * (P18 * s.inc.factor))) s.fees.pool.positions ≤
+      sumBy (fun q => 2 * entQ { s with inc := i1 } d q + 6 * P18) s.fees.pool.positions := by
+    apply sumBy_le
+    intro q hq
+    obtain ⟨cf, hcf⟩ := Option.isSome_iff_exists.mp (hall q hq)
+    obtain ⟨c, f⟩ := cf
+    have := (claimable_le_ent hi hq hcf hsync d).2.2
+    rw [fa1] at this
+    unfold claimD
+    rw [hcf]
+    exact this
+  rw [sumBy_mul, sumBy_add, sumBy_mul, C08.sumBy_const] at hle
+  have e1 : sumBy (fun q => claimD s d q * (P18 * s.inc.factor)) s.fees.pool.positions =
+      sumBy (claimD s d) s.fees.pool.positions * (P18 * s.inc.factor) := by
+    rw [Int.mul_comm (sumBy (claimD s d) s.fees.pool.positions) (P18 * s.inc.factor), ← sumBy_mul]
+    apply sumBy_congr
+    intro q _
+    exact Int.mul_comm _ _
+  rw [e1] at hle
+  have e2 : sumBy (entQ { s with inc := i1 } d) s.fees.pool.positions = Etot { s with inc := i1 } d := rfl
+  rw [e2] at hle
+  rw [Int.add_mul]
+  have e3 : (s.fees.pool.positions.length : Int) * (6 * P18) = 6 * (s.fees.pool.positions.length : Int) * P18 := by
+    rw [← Int.mul_assoc, Int.mul_comm _ 6]
+  rw [e3] at hle
+  omega
+
+/-- **the incentive address covers every claim** (C01's solvency clause for incentives): in every state reached by a history with
+`3·(#messages + #positions) < factor` (the incentive scaling factor, ≥ 10¹⁸), per denom, the whole tokens all positions together
+can claim (collected + forfeited) are at most the incentive address balance — and this although the incentive records' remaining
+amounts are covered by the same balance (`total_claimable_incentives_le_balance`). -/
+theorem incentive_solvency {spacing spf scale factor : Int} {auth : Nat} (hs : 0 < spacing) (hspf : SpfOK spf)
+    (hfac : 0 < factor) (ops : List IOp) {i1 : Inc}
+    (hsync : sync (runI (initI spacing spf scale factor auth) ops).inc (runI (initI spacing spf scale factor auth) ops).fees.pool.liquidity = some i1)
+    (hall : ∀ q ∈ (runI (initI spacing spf scale factor auth) ops).fees.pool.positions,
+      (claimableIncentives (runI (initI spacing spf scale factor auth) ops) q.id).isSome)
+    (hsmall : 3 * ((ops.length : Int) + (runI (initI spacing spf scale factor auth) ops).fees.pool.positions.length) <
+      (runI (initI spacing spf scale factor auth) ops).inc.factor) (d : String) :
+    sumBy (claimD (runI (initI spacing spf scale factor auth) ops) d) (runI (initI spacing spf scale factor auth) ops).fees.pool.positions ≤
+      amt (runI (initI spacing spf scale factor auth) ops).inc.bal d := by
+  have h := total_claimable_incentives_le_balance (auth := auth) (scale := scale) hs hspf hfac ops hsync hall d
+  have hi := reachable_inv_inc (auth := auth) (scale := scale) hs hspf hfac ops
+  generalize runI (initI spacing spf scale factor auth) ops = s at *
+  obtain ⟨hp1, _⟩ := sync_part hi.inc hsync
+  have hR := sumRem_nonneg d hp1.recsOK
+  have hF := hi.inc.factor
+  have hP := P18_pos
+  generalize sumBy (claimD s d) s.fees.pool.positions = X at *
+  generalize amt s.inc.bal d = B at *
+  have hK : 0 < P18 * s.inc.factor := Int.mul_pos hP hF
+  have hRF : 0 ≤ sumRem d i1.records * s.inc.factor := Int.mul_nonneg hR (Int.le_of_lt hF)
+  have hm : 3 * ((ops.length : Int) + s.fees.pool.positions.length) * P18 < s.inc.factor * P18 := Int.mul_lt_mul_of_pos_right hsmall hP
+  have e1 : B * P18 * s.inc.factor = B * (P18 * s.inc.factor) := Int.mul_assoc _ _ _
+  have e2 : s.inc.factor * P18 = P18 * s.inc.factor := Int.mul_comm _ _
+  have e3 : (6 * (ops.length : Int) + 6 * (s.fees.pool.positions.length : Int)) * P18 =
+      2 * (3 * ((ops.length : Int) + s.fees.pool.positions.length) * P18) := by
+    have : 6 * (ops.length : Int) + 6 * (s.fees.pool.positions.length : Int) = 2 * (3 * ((ops.length : Int) + s.fees.pool.positions.length)) := by omega
+    rw [this, Int.mul_assoc]
+  rw [e1, e3] at h
+  rw [e2] at hm
+  have h2 : X * (P18 * s.inc.factor) < (B + 1) * (P18 * s.inc.factor) := by
+    rw [Int.add_mul, Int.one_mul]; omega
+  have := Int.lt_of_mul_lt_mul_right h2 (Int.le_of_lt hK)
+  omega
+
+/-! non-vacuity for section 3b: the twins history followed by a partial withdrawal (bob), one more second, and a full withdrawal
+(bert): hypotheses of `total_claimable_incentives_le_balance` / `incentive_solvency` and the numbers -/
+
+def demoSolvOps : List IOp :=
+  demoTwPre ++ demoTwOps ++ [.fee (.withdraw "bob" 2 200000000000000000000000000), .advance 1000000000,
+    .fee (.withdraw "bert" 3 500749875124843813046785138)]
+
+/-- at 125 s (before the withdrawals): balance 910015 "inc0" covers the records' remaining 875000 (after sync) + claimable
+3332 + 15841 + 15841 = 35014, with one token to spare; all claim queries succeed; far fewer than factor/3 messages. -/
+example :
+    let s := runI demo0 (demoTwPre ++ demoTwOps)
+    (sync s.inc s.fees.pool.liquidity).isSome ∧
+    (∀ q ∈ s.fees.pool.positions, (claimableIncentives s q.id).isSome) ∧
+    3 * (((demoTwPre ++ demoTwOps).length : Int) + s.fees.pool.positions.length) < s.inc.factor ∧
+    (sumBy (claimD s "inc0") s.fees.pool.positions, amt s.inc.bal "inc0",
+      (syncNow s).map fun s1 => sumRem "inc0" s1.inc.records) = (35014, 910015, some (875000 * P18)) ∧
+    (sumBy (claimD s "inc1") s.fees.pool.positions, amt s.inc.bal "inc1",
+      (syncNow s).map fun s1 => sumRem "inc1" s1.inc.records) = (349, 499101, some (498750 * P18)) := by
+  decide +kernel
+
+/-- after the partial and the full withdrawal (incentives paid out, bert's record emptied): still covered. -/
+example :
+    let s := runI demo0 demoSolvOps
+    (sync s.inc s.fees.pool.liquidity).isSome ∧
+    (∀ q ∈ s.fees.pool.positions, (claimableIncentives s q.id).isSome) ∧
+    (s.fees.pool.positions.map (·.id), sumBy (claimD s "inc0") s.fees.pool.positions, amt s.inc.bal "inc0") = ([1, 2], 4153, 878155) ∧
+    (sumBy (claimD s "inc1") s.fees.pool.positions, amt s.inc.bal "inc1") = (41, 498783) := by
+  decide +kernel
 
 end OsmoVerif.Props.C08IncHist
